@@ -36,6 +36,9 @@ type obs struct {
 	idExit            string
 	idAfter           string // relay, after the handler returned
 	panicked          bool
+	// hdr is this request's own response header; the relay puts GetID() into it as it is (no
+	// copy), the way a handler sets an X-Request-Id header. The response is read later.
+	hdr http.Header
 }
 
 // content comparable between the long-lived and the fresh Mux (IDs excluded)
@@ -55,6 +58,26 @@ func (w *recWriter) Header() http.Header         { return w.h }
 func (w *recWriter) Write(b []byte) (int, error) { return len(b), nil }
 func (w *recWriter) WriteHeader(int)             {}
 
+const idHeader = "X-Request-Id"
+
+// sent is one response as its client finds it later: the header the relay set, and what the id was.
+type sent struct {
+	hdr  http.Header
+	id   string
+	what string
+}
+
+// checkSent: the id a response carries is the id its request had - whatever was served since.
+func checkSent(list []sent) (key, expected, observed string) {
+	for _, r := range list {
+		if got := r.hdr.Get(idHeader); got != r.id {
+			return "id-header:" + r.what, fmt.Sprintf("the response of this request carries the id the request had while it was served (%q), whatever was served afterwards", r.id),
+				fmt.Sprintf("read after the later requests of the history, the header says %q", got)
+		}
+	}
+	return "", "", ""
+}
+
 func lookups(s *httpd.Store, dst *[7]string) string {
 	for i, n := range names {
 		dst[i] = s.RouteParam(n)
@@ -73,6 +96,7 @@ func relay(s *httpd.Store) {
 	o.relayAny = lookups(s, &o.relayParams)
 	o.relayStatusEntry = s.W.Status
 	o.idRelay = strings.Clone(s.GetID())
+	s.W.Header().Set(idHeader, s.GetID())
 	s.I.HandlerFunc(s)
 	o.idAfter = strings.Clone(s.GetID())
 }
@@ -189,11 +213,13 @@ type Case struct {
 
 type stats struct {
 	requests, matched, noroute, panics, registrations int64
-	ids                                               int64
+	ids, responsesReadLater                           int64
 }
 
 func serve(mux *httpd.Mux, w *recWriter, hr *http.Request, rq req) (o obs, escaped any) {
 	w.o = &o
+	w.h = http.Header{}
+	o.hdr = w.h
 	hr.Method, hr.URL.Path = rq.m, rq.p
 	func() {
 		defer func() { escaped = recover() }()
@@ -237,6 +263,7 @@ func runSeq(cs Case, st *stats) (key, expected, observed string) {
 	prefix := ""
 	seen := map[string]struct{}{}
 	hist := strings.Join(cs.Ops, ",")
+	var responses []sent
 	for k, op := range cs.Ops {
 		if op == "rg" {
 			if extra < len(extraRoutes) {
@@ -273,8 +300,10 @@ func runSeq(cs Case, st *stats) (key, expected, observed string) {
 			return "id:" + kk, "request id unique within the Mux, constant during the request, with the Mux prefix", msg
 		}
 		st.ids++
+		responses = append(responses, sent{got.hdr, got.idRelay, kk})
 	}
-	return "", "", ""
+	st.responsesReadLater += int64(len(responses))
+	return checkSent(responses)
 }
 
 // concurrent: all routes registered up front, G goroutines × N requests on one Mux;
@@ -305,6 +334,7 @@ func runConc(cs Case, st *stats) (key, expected, observed string) {
 		key, exp, obs string
 		ids           []string
 		n, panics     int64
+		responses     []sent
 	}
 	out := make([]res, cs.G)
 	var wg sync.WaitGroup
@@ -341,6 +371,7 @@ func runConc(cs Case, st *stats) (key, expected, observed string) {
 					return
 				}
 				rs.ids = append(rs.ids, got.idRelay)
+				rs.responses = append(rs.responses, sent{got.hdr, got.idRelay, kk})
 			}
 		}(g)
 	}
@@ -361,6 +392,12 @@ func runConc(cs Case, st *stats) (key, expected, observed string) {
 		}
 	}
 	st.ids += int64(len(seen))
+	for g := range out {
+		st.responsesReadLater += int64(len(out[g].responses))
+		if k, e, o := checkSent(out[g].responses); k != "" {
+			return k, e, o
+		}
+	}
 	return "", "", ""
 }
 
@@ -378,7 +415,7 @@ type mon struct{}
 func (mon) Name() string { return "reqiso" }
 
 func (mon) Level(string) (string, string) {
-	return "exploration", "request histories on one long-lived Mux, each request compared with the same request on a fresh Mux holding the routes registered so far (relay handler, route handler and no-route handler all look up every parameter name of the table + an unknown one, RouteParamAny, W.Status at entry, GetID at entry/exit). Exhaustive: all histories of ≤4 (quick) / ≤6 (thorough) ops over the 10-op alphabet {matched 0/1/2 params, the root route '/', matched *, unmatched, partial match failing at the method node, panicking handler, register a route with more parameters than any before, serve the newest such route} on one goroutine (maximal Store reuse); seeded random histories of ≤200 ops; concurrent runs (4..16 goroutines) plain and under -race with an ID-uniqueness set. distinct_nontrivial = distinct histories containing at least two requests (by op sequence)"
+	return "exploration", "request histories on one long-lived Mux, each request compared with the same request on a fresh Mux holding the routes registered so far (relay handler, route handler and no-route handler all look up every parameter name of the table + an unknown one, RouteParamAny, W.Status at entry, GetID at entry/exit; the relay also puts GetID() into the response header as it is, and every response's header is read again at the end of the history - it must still carry the id its request had). Exhaustive: all histories of ≤4 (quick) / ≤6 (thorough) ops over the 10-op alphabet {matched 0/1/2 params, the root route '/', matched *, unmatched, partial match failing at the method node, panicking handler, register a route with more parameters than any before, serve the newest such route} on one goroutine (maximal Store reuse); seeded random histories of ≤200 ops; concurrent runs (4..16 goroutines) plain and under -race with an ID-uniqueness set. distinct_nontrivial = distinct histories containing at least two requests (by op sequence)"
 }
 
 type shardArgs struct {
@@ -494,6 +531,7 @@ func (mn mon) Run(sh drv.Shard, c *drv.Ctx) {
 	c.Add("handler_panics_recovered_by_harness", st.panics)
 	c.Add("registrations_between_requests", st.registrations)
 	c.Add("ids_checked_unique", st.ids)
+	c.Add("response_id_headers_read_after_later_requests", st.responsesReadLater)
 }
 
 func (mn mon) Replay(v drv.Violation, c *drv.Ctx) {
